@@ -9,8 +9,11 @@ TRUSTED_BASE = [
     "Spec/Decode.v (items, bytes a text stands for), Spec/Rfc3986Split.v (which text belongs to which component): my transcriptions",
     "models coq/Model/Quoter.v, Url.v validated by correspondence (both backends)",
     "extraction (ExtrOcamlBasic only), ocaml/driver*.ml, harness",
+    "source translator harness/gen_model.py (Python ast -> Gallina, fail closed): yarl/_query.py (query_var, the two serialisers, get_str_query) and "
+    "encode_url are re-read from the working tree on every run and proved equal to the model (C02_source_*); trusted: its reading of the dynamic "
+    "type tests as predicates on the model's sum types (coq/Model/GenQTypes.v)",
 ]
-ASSUMPTIONS = ["source-to-model tie is differential testing; join() is covered by C14 (exact RFC transform on the encoded components)"]
+ASSUMPTIONS = ["source-to-model tie of the quoters is regenerated tables plus differential testing; join() is covered by C14 (exact RFC transform on the encoded components)"]
 RULE = ("constructor: URL strings whose user, password, path segments, query parts and fragment are drawn from the 16-symbol quoter class "
         "alphabet (all strings up to length 3 in one component at a time) plus structured and soup URLs; the supplied component text (RFC "
         "decomposition of the cleaned input) and the canonical component must stand for the same bytes with the same delimiter status, "
